@@ -54,7 +54,11 @@ type concWorld struct {
 	probes   []world.Probe
 	table    [][]expect // [probe][mask]
 	pool     []*model.Pattern
+	ballast  int // routes registered outside the key set (method TRACE): a deep chain of nested prefixes
 }
+
+// ballast routes live under /~, which no key and no probe reaches; they only change the shape (depth) of the tree.
+const ballastPrefix = "/~"
 
 // key families: patterns that share nodes, so that writers on different keys clone and edit the same tree nodes.
 var keyFamilies = [][]string{
@@ -129,6 +133,20 @@ func buildConcWorld(src sim.Source, res *Result, tsMode int) *concWorld {
 		return nil
 	}
 	cw.w = w
+	// tree-depth knob: iterators and the lookup's backtracking stack size themselves from the tree depth (stack
+	// allocation below 25 levels, heap above); one run in six works on a tree deeper than that
+	if src.Intn("deep", 6) == 5 {
+		n := 26 + src.Intn("depth", 16)
+		bm := sim.Pick(src, "ballastmethod", []string{"TRACE", "GET"}) // its own method tree, or the one most keys live in
+		for i := 1; i <= n; i++ {
+			if _, err := w.R.Handle(bm, ballastPrefix+strings.Repeat("d", i), world.Handler(0)); err != nil {
+				res.Trouble = "ballast: " + err.Error()
+				return nil
+			}
+		}
+		cw.ballast = n
+		res.inc("runs_on_tree_deeper_than_25")
+	}
 	return cw
 }
 
@@ -189,7 +207,7 @@ func (o COp) String() string {
 	switch o.Kind {
 	case "handle", "update":
 		return fmt.Sprintf("%s(k%d,tag=%d)", o.Kind, o.Key, o.Tag)
-	case "delete", "has", "route":
+	case "delete", "has", "route", "iterroutes":
 		return fmt.Sprintf("%s(k%d)", o.Kind, o.Key)
 	case "serve", "lookup", "reverse":
 		return fmt.Sprintf("%s(p%d)", o.Kind, o.Probe)
@@ -252,6 +270,9 @@ func genReadCOp(src sim.Source, cw *concWorld) COp {
 	case k < 10:
 		return COp{Kind: "len"}
 	case k < 11:
+		if src.Intn("iterkind", 2) == 1 {
+			return COp{Kind: "iterroutes", Key: src.Intn("key", nk)}
+		}
 		return COp{Kind: "iterall"}
 	default:
 		op := COp{Kind: "view"}
@@ -360,11 +381,35 @@ func (cw *concWorld) execRead(s *sim.Sched, rd world.Reader, op COp) COut {
 		s.Yield(sim.PtIter)
 		var items []string
 		for m, r := range it.All() {
-			items = append(items, fmt.Sprintf("%s %s#%d", m, r.Pattern(), world.TagOf(r)))
+			if !strings.HasPrefix(r.Pattern(), ballastPrefix) {
+				items = append(items, fmt.Sprintf("%s %s#%d", m, r.Pattern(), world.TagOf(r)))
+			}
 			s.Yield(sim.PtIter)
 		}
 		sort.Strings(items)
 		return COut{Snap: strings.Join(items, "|")}
+	case "iterroutes":
+		// one sequence value ranged twice (with other tasks running in between): both ranges show the snapshot taken
+		// by Iter(), whatever happened to pooled lookup contexts meanwhile
+		k := cw.keys[op.Key]
+		it := rd.Iter()
+		seq := it.Routes(it.Methods(), k.Pat.Raw)
+		var tags [2]int
+		for round := range tags {
+			tags[round] = -1
+			for m, r := range seq {
+				if m == k.Method {
+					tags[round] = world.TagOf(r)
+				}
+				s.Yield(sim.PtIter)
+			}
+			s.Yield(sim.PtIter)
+		}
+		out := COut{Tag: tags[0]}
+		if tags[1] != tags[0] {
+			out.Class = fmt.Sprintf("second range over the same sequence gives #%d, the first gave #%d", tags[1], tags[0])
+		}
+		return out
 	}
 	panic("execRead: " + op.Kind)
 }
@@ -592,12 +637,12 @@ func (cw *concWorld) stepRead(st cstate, op COp, out COut) bool {
 	switch op.Kind {
 	case "has":
 		return out.Bool == (st[op.Key] != 0)
-	case "route":
+	case "route", "iterroutes":
 		want := st[op.Key]
 		if want == 0 {
 			want = -1
 		}
-		return out.Tag == want
+		return out.Tag == want && (op.Kind == "route" || out.Class == "")
 	case "len":
 		n := 0
 		for _, v := range st {
@@ -605,7 +650,7 @@ func (cw *concWorld) stepRead(st cstate, op COp, out COut) bool {
 				n++
 			}
 		}
-		return out.N == n
+		return out.N == n+cw.ballast
 	case "iterall":
 		return out.Snap == cw.snapOf(st)
 	case "view":
